@@ -539,5 +539,98 @@ fn main() {
             }
         },
     );
+    // the same laws through the two remaining ways into the quantile code: lanes of the crate's own
+    // NotNone wrapper (fractional values: its numeric conversions take part in Linear / Midpoint), and the
+    // NaN-skipping entry point on float lanes (ties arranged as adjacent equal pairs, missing values mixed in)
+    let lanes: Vec<Vec<f64>> = vec![
+        vec![2.1, 1.9],
+        vec![0.25, 3.75, 2.5],
+        vec![5.0, 5.0, 9.0, 9.0],
+        vec![4.0, 4.0, 7.0],
+        vec![9.0, 5.0, 5.0, 9.0],
+        vec![1.5, 1.5, 2.5, 2.5, 7.25, 7.25],
+        vec![-3.5, 0.125, 0.125, 8.75, -3.5],
+        vec![6.0, 6.0, 6.0],
+        vec![0.1, 0.2, 0.3, 0.4, 0.5, 0.6, 0.7],
+    ];
+    let lcases = lanes.into_iter().flat_map(|l| (0..3u8).map(move |kind| (l.clone(), kind)));
+    rep.run_sub(
+        "not-none-and-skipnan-lanes",
+        "9 lanes of fractional values (distinct, tied in adjacent pairs, constant) x {Array1<NotNone<N64>> through quantile_mut, a float lane through quantile_axis_skipnan_mut, the same lane with NaNs interleaved} x 5 strategies x q in {0, 1/8, .., 1, 0.3, 0.475, 0.57}; pivot policies first / middle / last: minimum at q=0, maximum at q=1, within [min, max], non-decreasing in q, Lower <= X <= Higher (Linear up to 1 ulp)",
+        lcases,
+        |(lane, kind), lx| {
+            use ndarray_stats::{MaybeNan, QuantileExt};
+            lx.nontrivial(lane.iter().any(|x| *x != lane[0]));
+            let (mn, mx) = (lane.iter().cloned().fold(f64::INFINITY, f64::min), lane.iter().cloned().fold(f64::NEG_INFINITY, f64::max));
+            let mut qs: Vec<f64> = (0..=8).map(|k| k as f64 / 8.0).collect();
+            qs.extend([0.3, 0.475, 0.57]);
+            qs.sort_by(|a, b| a.partial_cmp(b).unwrap());
+            for pol in [Policy::First, Policy::Middle, Policy::Last] {
+                // results[strategy][q index]
+                let mut results: Vec<Vec<Option<f64>>> = Vec::new();
+                for &strat in &Strat::ALL {
+                    let mut row = Vec::new();
+                    for &q in &qs {
+                        let mut out: Option<f64> = None;
+                        lx.explore(&PivotMode::Bounded { policy: pol, bound: 0 }, |lx| {
+                            let r: Result<Option<f64>, String> = match kind {
+                                0 => {
+                                    let mut a = Array1::from(lane.iter().map(|&v| Some(n64(v)).try_as_not_nan().unwrap().clone()).collect::<Vec<_>>());
+                                    guarded(|| nsmc::with_strategy!(strat, i, a.quantile_mut(n64(q), i)).ok().map(|x| (*x).raw()))
+                                }
+                                _ => {
+                                    let mut data: Vec<f64> = Vec::new();
+                                    for (k, &v) in lane.iter().enumerate() {
+                                        if *kind == 2 && k % 2 == 1 {
+                                            data.push(f64::NAN);
+                                        }
+                                        data.push(v);
+                                    }
+                                    if *kind == 2 {
+                                        data.push(f64::NAN);
+                                    }
+                                    let mut a = Array1::from(data);
+                                    guarded(|| nsmc::with_strategy!(strat, i, a.quantile_axis_skipnan_mut(Axis(0), n64(q), i)).ok().map(|x| x.into_scalar()))
+                                }
+                            };
+                            match r {
+                                Ok(Some(v)) => {
+                                    lx.check(mn <= v && v <= mx, "C19/outside-min-max", || format!("kind {} lane {:?} {:?} q={}: {} outside [{}, {}]", kind, lane, strat, q, v, mn, mx));
+                                    if q == 0.0 {
+                                        lx.check(v == mn, "C19/q0-not-min", || format!("kind {} lane {:?} {:?}: q=0 gives {}, minimum {}", kind, lane, strat, v, mn));
+                                    }
+                                    if q == 1.0 {
+                                        lx.check(v == mx, "C19/q1-not-max", || format!("kind {} lane {:?} {:?}: q=1 gives {}, maximum {}", kind, lane, strat, v, mx));
+                                    }
+                                    out = Some(v);
+                                    v.to_bits()
+                                }
+                                other => {
+                                    lx.fail("C19/panic", || format!("kind {} lane {:?} {:?} q={}: {:?}", kind, lane, strat, q, other));
+                                    0
+                                }
+                            }
+                        });
+                        row.push(out);
+                    }
+                    for w in row.windows(2).zip(qs.windows(2)) {
+                        if let ([Some(a), Some(b)], [qa, qb]) = (w.0, w.1) {
+                            lx.check(a <= b, "C19/not-monotone-in-q", || format!("kind {} lane {:?} {:?}: quantile({}) = {} > quantile({}) = {}", kind, lane, strat, qa, a, qb, b));
+                        }
+                    }
+                    results.push(row);
+                }
+                let idx = |s: Strat| Strat::ALL.iter().position(|x| *x == s).unwrap();
+                for (si, row) in results.iter().enumerate() {
+                    for (j, v) in row.iter().enumerate() {
+                        if let (Some(v), Some(lo), Some(hi)) = (v, results[idx(Strat::Lower)][j], results[idx(Strat::Higher)][j]) {
+                            let slack = if Strat::ALL[si] == Strat::Linear { nsmc::patterns::ulp(hi.abs().max(lo.abs())) } else { 0.0 };
+                            lx.check(lo - slack <= *v && *v <= hi + slack, "C19/strategy-order", || format!("kind {} lane {:?} q={}: {:?} gives {}, Lower {} and Higher {}", kind, lane, qs[j], Strat::ALL[si], v, lo, hi));
+                        }
+                    }
+                }
+            }
+        },
+    );
     rep.finish();
 }
